@@ -18,7 +18,8 @@ EXPLANATION = (
     "to the level decoder is bit_width_for_max(max_rep/def_level) of the column and the dictionary "
     "index width is the page's first byte; (3) the reader's level table (shared with C17.1); (4) enum "
     "tags equal parquet.thrift (shared with C05.2) and every Thrift wire-type tag equals the compact "
-    "protocol. Decides these clauses, not that decoded values/levels equal the stored ones.")
+    "protocol; (5) decompress_page writes its output only inside the switch over the codec; only the "
+    "UNCOMPRESSED arm copies raw bytes, every other arm calls its decompressor. Decides these clauses, not that decoded values/levels equal the stored ones.")
 
 PR = "src/reader/page_reader.c"
 PW = "src/writer/page_writer.c"
@@ -38,6 +39,10 @@ def run(ctx):
     ctx.clause("C06.1 unimplemented codecs/encodings/types/page types are rejected")
     ctx.clause("C06.2 level and index bit widths")
     ctx.clause("C06.4 enum tags / wire-type tags equal the specifications")
+    ctx.clause("C06.5 page bytes are interpreted by the chunk's codec tag alone")
+    from ..rules import codecrepr
+    codecrepr.reader(ctx)
+    codecrepr.loaders(ctx)
     # ---- (1) switches with error defaults
     for fname, file_, what, on, allowed in (
             ("decompress_page", PR, "codec", "codec",
